@@ -1868,6 +1868,18 @@ def requeued_change_set_is_flagged(ctx, p):
                 if not ok:
                     return False, 'argument of the call at %s: %s' % (cb.loc(bi), why)
             return True, 'every caller hands in a flagged change set'
+        # made by a crate helper that returns the change set (`commit.changeset.split_off_tree_removals()`): the flag of what it returns
+        cds = [d for d in tb.defs.get(l, []) if d[1] == 'call']
+        if len(cds) == 1 and len(ds) == 1 and depth <= 3:
+            hn = [n for n in call_names(cds[0][2]) if n in F.bodies and 'CommitChangeSet' in str(F.bodies[n].locals[0])]
+            if hn:
+                hb = F.bodies[hn[0]]
+                rets = [r for r in hb.return_blocks() if r in hb.normal_blocks()]
+                if rets:
+                    res = [flagged(hb, {'o': 'm', 'p': [0]}, r, depth + 1) for r in rets]
+                    if all(o for o, _ in res):
+                        return True, 'returned flagged by %s' % hn[0]
+                    return False, 'returned by %s: %s' % (hn[0], [w for o, w in res if not o][:1])
         return False, 'made by %s' % ([symterm.show(tb.rvalue(d[2]) if d[1] == 'rv' else tb.call(d[2]))[:80] for d in ds] or 'nothing visible')
 
     n = 0
